@@ -236,27 +236,36 @@ CLAIMED = {
         category="proof",
         technique="Lean 4 proof over a fuel-indexed model of the whole of parser.rs + exhaustive correspondence on the real lexer's tokens + tree and value oracle",
         text="Proved on the parser model M2 (fed the REAL lexer's tokens): for every operand and every list of (operator, "
-             "operand) pairs of any length over all 21 operators, with literal / variable / call / parenthesised operands "
-             "nested to any depth, parse_expression returns the left fold, consumes exactly the chain and emits no "
-             "diagnostics (chain_left_assoc, chain_left_assoc_whole); parenthesised groups stay Parentheses nodes "
-             "(paren_overrides_*). Correspondence: all chains of 1-3 operators x 21 operators x 3 operand shapes (29k) plus "
-             "random longer chains, real tree = model tree = left fold; `garden run -c` values equal the explicitly "
-             "parenthesised chain and Python's left fold.",
-        note=TB + "Residual hypothesis IntTok (the decimal text of an i64 reads back as that integer), discharged for concrete "
-             "literals. Operands such as method calls and strings are covered by correspondence only. Holds with the "
-             "left-associativity fix; the pinned behaviour is kept as pinned_chain_wrong.",
+             "operand) pairs of any length over all 21 operators, parse_expression returns the left fold, consumes exactly the "
+             "chain and emits no diagnostics: chain_left_assoc / chain_left_assoc_whole for literal / variable / call / "
+             "parenthesised operands in any token context, chain_left_assoc_all for operands of EVERY closed kind (strings, "
+             "floats, method calls, dot and :: access, lists, tuples, dictionaries, struct literals, lambdas, assert, "
+             "if/while/for/match/try expressions), nested to any depth; parenthesised groups stay Parentheses nodes "
+             "(paren_overrides_*). No hypothesis about integer tokens: intTok_of_i64 proves that the decimal text of every i64 "
+             "is classified as an integer token and read back as that value. Correspondence: all chains of 1-3 operators x 21 "
+             "operators x 3 operand shapes (29k) plus random longer chains, real tree = model tree = left fold; `garden run -c` "
+             "values equal the explicitly parenthesised chain and Python's left fold.",
+        note=TB + "The theorems are about the parser model; the run ties the model to the real parser on the real token "
+             "lists. Holds with the left-associativity fix; the pinned behaviour is kept as pinned_chain_wrong.",
         design="§7 C03"),
     "C33": dict(
         category="proof",
-        technique="Lean 4 partial proof (operator/call/parenthesis fragment) over the parser and printer models + whole-grammar print -> real-parse oracle",
-        text="Proved (parse_print_partial, parse_print_whole_partial): for trees built from integer literals, variables, calls, "
-             "parentheses and binary-operator chains, at any depth and in any context, printing then parsing returns the same "
-             "tree with no diagnostics. For the WHOLE grammar (every expression, statement and definition kind, depth <= 4 "
-             "quick / 6 thorough) generated trees are printed by the model printer, parsed by the real parser and must come "
-             "back identical with no errors; the printer's token stream is compared with the real lexer's.",
-        note=TB + "The theorem is partial: statements, blocks, list/tuple/dict/struct literals, lambdas, strings, floats, "
-             "method/dot/namespace access and definitions are covered by the oracle only. WellFormedTree exclusions (what the "
-             "grammar cannot express) are listed in Props/C33.lean.",
+        technique="Lean 4 proof over the parser and printer models, all node kinds (induction over the well-formed trees, one lemma per node and item kind) + whole-grammar print -> real-parse oracle",
+        text="Proved (C33.parse_print): for every list of well-formed top-level items - functions, methods, tests, enums, "
+             "structs, imports, expression items, blocks, whose expressions use ANY node kind (all 27 Expr constructors other than "
+             "`invalid`: literals, operators, calls, method/dot/:: access, let/assign/+=, if/else, while, for, match with "
+             "patterns, try, return, break, continue, lists, tuples, dictionaries, struct literals, lambdas, assert, parentheses; "
+             "type hints, type parameters, destructuring) - lexing the canonical text and parsing it returns exactly the "
+             "items, consumes every token and emits no diagnostic, for every fuel above a bound depending on the items. "
+             "parse_print_stmt / parse_print_block give the same for one expression / block in any token context; "
+             "demo_roundtrip instantiates it on a program with every item kind. For generated trees of the whole grammar "
+             "(depth <= 4 quick / 6 thorough, plus string-boundary and grammar-edge streams) the model printer's text is parsed "
+             "by the REAL parser and must come back identical with no errors; the printer's token stream is compared with the "
+             "real lexer's and the parser model with the real parser.",
+        note=TB + "The well-formedness predicates RT.WT / RT.WTI / RT.IAdj (side conditions listed in Props/C33.lean: valid "
+             "names, i64 / float literal texts, operand positions, no repeated parameter names, the dot-then-`(` adjacency "
+             "rule) are meant to be exactly the trees the concrete syntax can express; every generated tree satisfies them. "
+             "The theorem is about the parser model on Print.lexOf; the run ties both to the real lexer and parser.",
         design="§7 C33"),
 
     "C02": dict(
